@@ -398,7 +398,14 @@ impl<T: Qcow2IoOps> Qcow2Dev<T> {
 
         let mapping = l2_table.get_mapping(&self.info, &split);
         if mapping.plain_offset(0).is_none() {
-            let _ = self.alloc_and_map_cluster(&split, &mut l2_table).await?;
+            let m = self.alloc_and_map_cluster(&split, &mut l2_table).await?;
+            if let Some(off) = m.cluster_offset {
+                // mapped, to be zeroed by the data write that follows
+                self.zero_failed
+                    .lock()
+                    .unwrap()
+                    .insert(off >> self.info.cluster_bits());
+            }
             l2_handle.set_dirty(true);
             self.mark_need_flush(true);
         }
@@ -496,8 +503,13 @@ impl<T: Qcow2IoOps> Qcow2Dev<T> {
                 if Self::need_make_mapping(&mapping, info) {
                     let l2_off = cluster_start + ((idx as u64) << info.cluster_bits());
 
-                    // this is one new cluster
+                    // this is one new cluster: mapped here, to be zeroed by
+                    // the data write that follows
                     self.mark_new_cluster(l2_off >> info.cluster_bits()).await;
+                    self.zero_failed
+                        .lock()
+                        .unwrap()
+                        .insert(l2_off >> info.cluster_bits());
                     let _ = l2_table.map_cluster(split.l2_slice_index(info), l2_off);
 
                     //load new entry
